@@ -105,7 +105,8 @@ OUTDIR = "out"
 TEMPLATE_PATH = "templates/plot.tex"
 KINDS = ["csv", "tex", "pdf", "png"]
 MKF = ["plain", "dir", "dirfmt", "prefix", "suffix", "presuf", "ctxprefix", "second-noow", "second-ow",
-       "ctxname", "ctxdir-empty", "ctxext-empty", "mkf-ext", "suffix-scaled", "prefix-scaled", "dir-optional", "prefix-alt", "dir-then-name"]
+       "ctxname", "ctxdir-empty", "ctxext-empty", "mkf-ext", "suffix-scaled", "prefix-scaled", "dir-optional", "prefix-alt", "dir-then-name",
+       "name-with-dir", "dir-from-name"]
 
 
 def template_text(version, newline=False):
@@ -157,6 +158,12 @@ def make_filenames(variant):
     if variant == "dir-optional":
         # a key that cannot be formatted for a value is not set for that value
         return [MF(dirname="d_{{extra.dir}}"), MF("{{plot.name}}")]
+    if variant == "name-with-dir":
+        # the documented "{{variable.type}}/{{variable.name}}" pattern: a name with a directory part
+        return [MF("grp/{{plot.name}}")]
+    if variant == "dir-from-name":
+        # one element sets the name and a directory that refers to the name it has just set
+        return [MF("{{plot.name}}", dirname="{{output.filename}}")]
     if variant == "suffix-scaled":
         # the pattern of the group_plots documentation: a later name built from the existing one
         return [MF(suffix="_log"), MF("{{plot.name}}"), MF("{{output.filename}}_scaled", overwrite=True)]
@@ -194,6 +201,10 @@ def expected_name(variant, name):
     if variant == "dir-optional":
         # only even plots carry extra.dir
         return ("d_a" if int(name[1:]) % 2 == 0 else ""), name
+    if variant == "name-with-dir":
+        return "", "grp/" + name
+    if variant == "dir-from-name":
+        return name, name
     if variant == "suffix-scaled":
         return "", name + "_log_scaled"
     if variant == "prefix-scaled":
